@@ -29,7 +29,7 @@ META = {
 }
 
 _cache = {}
-KINDS = ["exception", "empty", "short"]
+KINDS = ["exception", "empty", "short", "exception-service", "exception-plain"]
 
 
 def get_file(desc, ctx):
